@@ -52,7 +52,7 @@ def inline(r, depth=0, plugins=()):
     if k < 0.79:
         return r.choice(["<b>", "</b>", "<br/>", "<a href='x'>", "</a>", "<!-- c -->", "<?p?>", "<i class=\"k\">"])
     if k < 0.83:
-        return r.choice(["&amp;", "&lt;", "&#35;", "&#x41;", "&copy;", "&nosuch;", "&", "&amp"])
+        return r.choice(["&amp;", "&lt;", "&#35;", "&#x41;", "&copy;", "&nosuch;", "&", "&amp", "\\&copy;", "\\&#35;", "\\&lt;b\\&gt;", "&ltx;", "&quot"])
     if k < 0.87:
         return "\\" + r.choice(PUNCT)
     if k < 0.90:
@@ -66,7 +66,7 @@ def inline(r, depth=0, plugins=()):
             "footnotes": "[^" + r.choice(["1", "n", "Note", "missing"]) + "]",
             "url": r.choice(["https://example.com/a?b=c", "http://x.y"]),
             "abbr": r.choice(["HTML", "W3C"]), "math": "$" + r.choice(["a+b", "x<y", "\\frac"]) + "$",
-            "ruby": "[" + word(r) + "(" + word(r) + ")]" + r.choice(["", "", "", "[ref]", "[nope]", "(/u)", "[" + word(r) + "(" + word(r) + ")]", "[]", "("]), "spoiler": ">!" + w + "!<",
+            "ruby": r.choice(["[" + word(r) + "(" + word(r) + ")]"] * 6 + ["[a(b(c)]", "[a((b)]", "[f(g(x))]", "[a(b c)]", "[a(b)c(d)]", "[a()]", "[(b)]", "[a(b]", "[a(b))]"]) + r.choice(["", "", "", "[ref]", "[nope]", "(/u)", "[" + word(r) + "(" + word(r) + ")]", "[]", "("]), "spoiler": ">!" + w + "!<",
             "table": "a|b", "def_list": w, "task_lists": "[x]",
         }.get(p, w)
     return words(r, 1, 3)
@@ -292,3 +292,28 @@ def showcase(r):
     if k == "url":
         return "see https://example.com/a?b=c&d=e. and <https://x.y> %s http://q.r/s)\n" % w()
     return "[a][r1] and [R1] and [b][nope] ![i][r1]\n\n[r1]: /u%s \"T\"\n" % r.choice(["", "?a=b&c", "%20x"])
+
+
+INCLUDE_TARGETS = ["data.txt", "part.md", "frag.html", "latin1.txt", "empty.txt", "bom.md", "utf16.txt", "sub/inner.md", "missing.txt", "main.md", "", ".", "sub",
+                   "./data.txt", "sub/../data.txt", "data.txt  ", "<x9>.txt"]
+INCLUDE_ENCODINGS = ["utf-8", "utf-8", "latin-1", "ascii", "utf-16", "utf-8-sig", "nope", "", "<x9 y9=1>", "\"onx9=1", "idna", "hex", "unicode_escape"]
+
+
+def include_doc(r, style=None, payload=""):
+    """documents for conversions with a file context: include directives (fenced or RST style) with every kind of target and encoding"""
+    style = style or r.choice(["fenced", "rst"])
+    out = []
+    for _ in range(r.randint(1, 3)):
+        tgt = r.choice(INCLUDE_TARGETS) + (payload if r.random() < 0.2 else "")
+        opts = []
+        if r.random() < 0.6:
+            opts.append(("encoding", r.choice(INCLUDE_ENCODINGS) + (payload if r.random() < 0.3 else "")))
+        if r.random() < 0.2:
+            opts.append((r.choice(["class", "x", "encoding"]), payload or "v"))
+        if style == "fenced":
+            out.append("```{include} %s\n%s```\n" % (tgt, "".join(":%s: %s\n" % o for o in opts)))
+        else:
+            out.append(".. include:: %s\n%s" % (tgt, "".join("   :%s: %s\n" % o for o in opts)))
+        if r.random() < 0.4:
+            out.append(words(r) + "\n")
+    return "\n".join(out)
